@@ -4,7 +4,11 @@ package types
 // symbolically by /verif/engine (gosym) and natively for replay.
 
 import (
+	"time"
+
+	sdkmath "cosmossdk.io/math"
 	sdk "github.com/cosmos/cosmos-sdk/types"
+	authtypes "github.com/cosmos/cosmos-sdk/x/auth/types"
 	sdkvesting "github.com/cosmos/cosmos-sdk/x/auth/vesting/types"
 
 	zz "github.com/haqq-network/haqq/zzverif"
@@ -154,5 +158,102 @@ func VerifC09_Conjunct() {
 	// define; every other instant is covered.
 	zz.Assume(zz.Or(t != Max64(sa, sb), sa == sb))
 	zz.Assert(zz.CoinsEq(got, want), "capped schedule releases the minimum of the two")
+	zz.Reach("end")
+}
+
+// ---------------------------------------------------------------- account level (C09 clawback, C08 locked coins)
+
+// vAnyAccount: an arbitrary valid clawback vesting account: both schedules start together, sum to the same grant,
+// EndTime = later end (as NewClawbackVestingAccount computes it), arbitrary tracked delegations.
+func vAnyAccount(nl, nv int) (*ClawbackVestingAccount, int64) {
+	start := zz.AnyInt64In("start", 0, vMaxStart)
+	lp := vAnyPeriods("L", nl)
+	vp := vAnyPeriods("V", nv)
+	zz.Assume(zz.CoinsEq(vTotal(lp), vTotal(vp)))
+	addr := sdk.AccAddress([]byte{1, 2, 3, 4, 5, 6, 7, 8, 9, 10, 11, 12, 13, 14, 15, 16, 17, 18, 19, 20})
+	funder := sdk.AccAddress([]byte{2, 2, 3, 4, 5, 6, 7, 8, 9, 10, 11, 12, 13, 14, 15, 16, 17, 18, 19, 20})
+	va := NewClawbackVestingAccount(authtypes.NewBaseAccountWithAddress(addr), funder, vTotal(lp), time.Unix(start, 0), lp, vp, nil)
+	return va, start
+}
+
+// VerifC09_AccountSplit: vested+unvested = locked+unlocked = original grant, nothing negative, no panic, for every time.
+func VerifC09_AccountSplit() {
+	va, start := vAnyAccount(zz.ParamInt("nl", 2), zz.ParamInt("nv", 2))
+	t := zz.AnyInt64In("t", 0, vMaxT)
+	bt := time.Unix(t, 0)
+	zz.Assert(va.EndTime == Max64(vEnd(start, va.LockupPeriods), vEnd(start, va.VestingPeriods)), "account end time is the later schedule end")
+	vested, unvested := va.GetVestedCoins(bt), va.GetVestingCoins(bt)
+	unlocked, locked := va.GetUnlockedCoins(bt), va.GetLockedUpCoins(bt)
+	zz.ObserveCoins("vested", vested)
+	zz.ObserveCoins("unlocked", unlocked)
+	zz.Assert(zz.CoinsEq(vested.Add(unvested...), va.OriginalVesting), "vested + unvested = original grant")
+	zz.Assert(zz.CoinsEq(unlocked.Add(locked...), va.OriginalVesting), "locked + unlocked = original grant")
+	zz.Assert(zz.And(zz.CoinsNonNeg(vested), zz.CoinsNonNeg(unvested), zz.CoinsNonNeg(unlocked), zz.CoinsNonNeg(locked)), "no part is negative")
+	// the account end time equals a schedule end; where it exceeds the other schedule's end the step function still agrees
+	zz.Assert(zz.CoinsEq(vested, vRef(start, va.VestingPeriods, t)), "vested coins follow the vesting step function")
+	zz.Assert(zz.CoinsEq(unlocked, vRef(start, va.LockupPeriods, t)), "unlocked coins follow the lockup step function")
+	zz.Reach("end")
+}
+
+// VerifC08_LockedCoins: LockedCoins(t) = max(original - unlockedVested - trackedDelegated, unvested), component-wise.
+func VerifC08_LockedCoins() {
+	va, start := vAnyAccount(zz.ParamInt("nl", 2), zz.ParamInt("nv", 2))
+	va.DelegatedFree = zz.AnyCoins("delegatedFree", 128, vDenoms()...)
+	va.DelegatedVesting = zz.AnyCoins("delegatedVesting", 128, vDenoms()...)
+	t := zz.AnyInt64In("t", 0, vMaxT)
+	got := va.LockedCoins(time.Unix(t, 0))
+	zz.ObserveCoins("locked", got)
+	vested := vRef(start, va.VestingPeriods, t)
+	unlocked := vRef(start, va.LockupPeriods, t)
+	unvested := va.OriginalVesting.Sub(vested...)
+	unlockedVested := unlocked.Min(vested)
+	tracked := va.DelegatedFree.Add(va.DelegatedVesting...)
+	for _, d := range vDenoms() {
+		a := va.OriginalVesting.AmountOf(d).Sub(unlockedVested.AmountOf(d)).Sub(tracked.AmountOf(d))
+		want := sdkmath.MaxInt(a, unvested.AmountOf(d))
+		zz.Assert(got.AmountOf(d).Equal(want), "LockedCoins = max(original - unlockedVested - trackedDelegated, unvested)")
+		zz.Assert(got.AmountOf(d).GTE(unvested.AmountOf(d)), "unvested coins are always locked")
+		zz.Assert(got.AmountOf(d).LTE(va.OriginalVesting.AmountOf(d)), "never more than the grant is locked")
+	}
+	zz.Reach("end")
+}
+
+// VerifC09_Clawback: ComputeClawback(c) returns exactly the unvested amount and leaves an account that keeps every vested
+// coin under its original lockup.
+func VerifC09_Clawback() {
+	va, start := vAnyAccount(zz.ParamInt("nl", 2), zz.ParamInt("nv", 2))
+	c := zz.AnyInt64In("clawbackTime", 0, vMaxT)
+	t := zz.AnyInt64In("t", 0, vMaxT)
+	oldLockup := va.LockupPeriods
+	oldVesting := va.VestingPeriods
+	orig := va.OriginalVesting
+	vestedAtC := vRef(start, oldVesting, c)
+	na, amount := va.ComputeClawback(c)
+	zz.ObserveCoins("clawed", amount)
+	zz.ObserveInt64("newEnd", na.EndTime)
+	zz.Assert(zz.CoinsEq(amount, orig.Sub(vestedAtC...)), "clawback takes exactly the unvested amount")
+	zz.Assert(zz.CoinsEq(na.OriginalVesting, vestedAtC), "the account keeps exactly the vested coins")
+	// consistency of the new account
+	zz.Assert(zz.CoinsEq(vTotal(na.VestingPeriods), na.OriginalVesting), "new vesting schedule sums to the kept amount")
+	zz.Assert(zz.CoinsEq(vTotal(na.LockupPeriods), na.OriginalVesting), "new lockup schedule sums to the kept amount")
+	zz.Assert(vEnd(start, na.VestingPeriods) <= na.EndTime && vEnd(start, na.LockupPeriods) <= na.EndTime, "both new schedules end by the new end time")
+	zz.Assert(na.GetStartTime() == start, "start time unchanged")
+	// behaviour at an arbitrary later read time: vested coins stay subject to the original lockup
+	bt := time.Unix(t, 0)
+	unlockedNew := na.GetUnlockedCoins(bt)
+	zz.ObserveCoins("unlockedNew", unlockedNew)
+	want := vRef(start, oldLockup, t).Min(vestedAtC)
+	zz.Assert(zz.CoinsEq(unlockedNew, want), "after clawback the kept coins unlock exactly as the original lockup allows")
+	zz.Assert(zz.CoinsEq(na.GetVestedCoins(bt), vRef(start, oldVesting, t).Min(vestedAtC)), "after clawback vested coins are the events up to the clawback")
+	locked := na.LockedCoins(bt)
+	zz.Assert(zz.CoinsEq(locked, na.OriginalVesting.Sub(unlockedNew.Min(na.GetVestedCoins(bt))...)), "after clawback (no delegations) locked = kept - unlockedVested")
+	// validity as the account itself defines it, whenever anything is kept. Validate() insists on start < end, which a
+	// kept schedule whose events all sit on the start instant cannot satisfy; every account the chain can create has a
+	// first lockup period of positive length (messages require length >= 1, liquid-vesting redeem passes the positive
+	// remainder of the current period), so that is the domain of this clause.
+	if !na.OriginalVesting.IsZero() && len(oldLockup) > 0 && oldLockup[0].Length >= 1 {
+		zz.Assert(na.Validate() == nil, "a clawback that keeps coins leaves an account accepted by its own Validate()")
+		zz.Reach("kept")
+	}
 	zz.Reach("end")
 }
